@@ -220,6 +220,8 @@ struct OpRec {
     cancel_sq_full: Option<(usize, u32)>,
     /// submission count when the cancel was issued
     cancel_mark: usize,
+    /// poll-line count at push time
+    pushed_at: usize,
     /// SQE written but not yet submitted (harness estimate)
     queued: bool,
     /// CQEs estimated to sit in the CQ unseen (multishot / zero-copy)
@@ -278,6 +280,11 @@ struct World {
     need_notifier: bool,
     skip: bool,
     accepted: Vec<OwnedFd>,
+    /// a waker of the driver's notifier, taken when the proactor is built: every pool job owns a clone until
+    /// it has sent its entry and woken the driver, so the Arc count tells when a job is completely over
+    w0: Option<std::task::Waker>,
+    w0_ok: bool,
+    running_jobs: usize,
     /// number of submissions (`io_uring_enter`) so far, harness estimate
     submits: usize,
     /// poll-line count at the last `ready` of each slot
@@ -325,6 +332,9 @@ impl World {
             skip: false,
             accepted: vec![],
             backlog: vec![0; 8],
+            w0: None,
+            w0_ok: false,
+            running_jobs: 0,
             submits: 0,
             ready_at: vec![0; 8],
         }
@@ -451,6 +461,11 @@ impl World {
             }
         }
     }
+}
+
+/// strong count of the `Arc` behind a waker made by `Waker::from(Arc<_>)` (`ArcInner { strong, weak, data }`)
+fn waker_strong(w: &std::task::Waker) -> usize {
+    unsafe { (*((w.data() as *const u8).sub(16) as *const AtomicUsize)).load(SeqCst) }
 }
 
 fn with_phase<T>(ph: u32, f: impl FnOnce() -> T) -> T {
@@ -626,6 +641,9 @@ impl World {
                             return "bad-driver".into();
                         }
                         RING_FD.store(if self.iour() { p.as_raw_fd() } else { -1 }, SeqCst);
+                        let w0 = p.waker();
+                        self.w0_ok = waker_strong(&w0) == 2;
+                        self.w0 = Some(w0);
                         self.p = Some(p);
                         ex.tag(format!("drv:{d}"));
                         ex.tag(format!("cap:{cap}"));
@@ -863,24 +881,19 @@ impl World {
             ["gate", i] => {
                 let Some(i) = self.idx(i) else { return "bad-op".into() };
                 let Some(g) = self.ops[i].gate.take() else { return self.fin("nogate") };
-                let before = self.ops[i].drops();
                 g.send(()).ok();
                 if let Some(rx) = self.ops[i].done_rx.take() {
                     rx.recv_timeout(Duration::from_secs(5)).ok();
                 }
+                self.running_jobs -= 1;
+                if !self.wait_jobs() {
+                    return self.fin("gate-timeout");
+                }
                 if let Some(p) = self.p.as_mut() {
-                    // the pool thread sends the entry, then wakes the driver
-                    let _ = with_phase(PH_POLL, || p.poll(Some(Duration::from_millis(500))));
+                    // the entry is in the completed channel now
                     settle(p);
                     self.polls += 1;
                     self.note_poll();
-                } else {
-                    // the entry cannot be delivered any more; its key is dropped on the pool thread
-                    let t0 = Instant::now();
-                    while self.ops[i].drops() == before && t0.elapsed() < Duration::from_millis(if self.ops[i].held() { 5 } else { 300 }) {
-                        std::thread::sleep(Duration::from_micros(200));
-                    }
-                    std::thread::sleep(Duration::from_millis(1));
                 }
                 ex.tag("ev:gate");
                 "ok".into()
@@ -905,6 +918,26 @@ impl World {
         };
         self.monitors(ex);
         self.fin(&out)
+    }
+
+    /// wait until every pool job that was let go has sent its entry, woken the driver and dropped its waker
+    fn wait_jobs(&self) -> bool {
+        let Some(w0) = &self.w0 else { return true };
+        if !self.w0_ok {
+            std::thread::sleep(Duration::from_millis(20));
+            return true;
+        }
+        let base = self.p.is_some() as usize + 1 + self.running_jobs;
+        let t0 = Instant::now();
+        while waker_strong(w0) > base {
+            if t0.elapsed() > Duration::from_secs(5) {
+                return false;
+            }
+            std::thread::yield_now();
+        }
+        // the job's closure (and with it its `Sender` of the completed channel) is dropped right after the wake
+        std::thread::sleep(Duration::from_micros(200));
+        true
     }
 
     fn fin(&self, out: &str) -> String {
@@ -951,6 +984,7 @@ impl World {
             cancel_issued_at: None,
             cancel_sq_full: None,
             cancel_mark: 0,
+            pushed_at: self.polls,
             queued: false,
             undrained: 0,
             gate: None,
@@ -1055,6 +1089,7 @@ impl World {
                     PushEntry::Pending(key) => {
                         rec.key = KeyBox::Blk(Some(key));
                         rec.pending = true;
+                        self.running_jobs += 1;
                         self.ops.push(rec);
                         out = "pending".to_string();
                     }
@@ -1094,14 +1129,16 @@ impl World {
                     );
                     self.ops[i].reported = true;
                 }
-            } else if !o.cancel_requested && o.kind == HKind::Rd && !self.written[o.slot].is_empty() && self.polls > self.ready_at[o.slot] {
+            } else if !o.cancel_requested && o.kind == HKind::Rd && !self.written[o.slot].is_empty() && self.polls > self.ready_at[o.slot].max(o.pushed_at) {
                 // data is waiting on its descriptor: is it waiting for this op?
                 let waiting = self
                     .ops
                     .iter()
                     .enumerate()
                     .filter(|(j, p)| *j != i && p.kind == HKind::Rd && p.slot == o.slot && p.pending && !p.finished && !p.cancel_requested && p.held())
-                    .count();
+                    .count()
+                    // an op whose key the caller gave up may have taken a chunk nobody saw
+                    + self.ops.iter().filter(|p| p.kind == HKind::Rd && p.slot == o.slot && !p.returned && !p.held()).count();
                 if self.written[o.slot].len() > waiting && !o.reported {
                     ex.fail(
                         "C05:neighbour-stuck",
@@ -1225,6 +1262,8 @@ impl World {
                 rx.recv_timeout(Duration::from_secs(5)).ok();
             }
         }
+        self.running_jobs = 0;
+        self.wait_jobs();
         let unsafe_drop = self.iour() && self.ops.iter().any(|o| o.undrained > 1 + o.held() as usize);
         if let Some(mut p) = self.p.take() {
             if unsafe_drop {
